@@ -82,6 +82,7 @@ static bool traverse(sctx *c, int root_kind, int strategy, vrng *r, bool *inconc
                 if (!got) do_leave = true;
             }
             if (!do_leave && got) {
+                if (top == K_OBJ && vrn(r, 3) == 0) (void)binson_parser_get_name(p);       /* applications read the names while iterating an object */
                 binson_type t = binson_parser_get_type(p);
                 if (t == BINSON_TYPE_OBJECT || t == BINSON_TYPE_ARRAY) {
                     int action;  /* 0 skip, 1 enter, 2 get_raw, 3 to_writer */
